@@ -18,7 +18,7 @@ use std::time::Instant;
 pub fn def() -> PropDef {
     PropDef {
         id: "C08",
-        rule: "part supports_exhaustive: every (original_count, recovery_count) in [0,65537]^2 for the default, high and low rate (3 x 4.3e9 evaluations, exhaustive) against the README envelope written as a definition, plus usize extremes; part layers: every supports() entry point of every family x engine x layer on the 2-wide band around every staircase step, both axes and a random sample; part agreement: generated (o,r,B) concentrated on the boundary: validate/new/reset/Rate::encoder/Rate::decoder succeed iff supported and B even and non-zero, with a truthful error otherwise; part corners: every staircase corner (and neighbours) of every family really encodes and decodes at maximum loss (half of the cases) or with k+1 / a uniform number / ALL k + r shards given. non-trivial: pairs within distance 1 of the envelope boundary; corners round-tripped",
+        rule: "part supports_exhaustive: every (original_count, recovery_count) in [0,65537]^2 for the default, high and low rate (3 x 4.3e9 evaluations, exhaustive) against the README envelope written as a definition, plus usize extremes; part layers: every supports() entry point of every family x engine x layer on the 2-wide band around every staircase step, both axes and a random sample; part agreement: generated (o,r,B) concentrated on the boundary: validate/new/reset/Rate::encoder/Rate::decoder succeed iff supported and B even and non-zero (validate, which allocates nothing, also for sizes up to usize::MAX - 1), with a truthful error otherwise; part corners: every staircase corner (and neighbours) of every family really encodes and decodes at maximum loss (half of the cases) or with k+1 / a uniform number / ALL k + r shards given. non-trivial: pairs within distance 1 of the envelope boundary; corners round-tripped",
         assumptions: &["the reference bound R(o) = max admissible r is read off the definition per n and re-verified against the literal definition on the whole boundary and a random sample"],
         parts,
     }
@@ -329,6 +329,9 @@ pub struct AgreeCase {
     pub o: usize,
     pub r: usize,
     pub b: usize,
+    /// the generated size before it was bounded for the allocating calls; validate() (allocates nothing) gets this one too
+    #[serde(default)]
+    pub b_raw: Option<usize>,
 }
 
 fn agreement_strategy(_t: Tier) -> BoxedStrategy<AgreeCase> {
@@ -337,12 +340,13 @@ fn agreement_strategy(_t: Tier) -> BoxedStrategy<AgreeCase> {
             let size = prop_oneof![
                 5 => prop_oneof![Just(2usize), Just(4), Just(64), Just(62), Just(66)],
                 2 => prop_oneof![Just(0usize), Just(1), Just(3), Just(63), Just(65)],
-                1 => prop_oneof![Just(usize::MAX), Just(usize::MAX - 1), Just(1usize << 40)],
+                2 => prop_oneof![Just(usize::MAX), Just(usize::MAX - 1), Just(usize::MAX - 61), Just(1usize << 40), Just(1usize << 47), Just((1usize << 47) - 2), Just(1usize << 63), Just((1usize << 32) + 2), Just(1usize << 20)],
             ];
             (gen::engine_for(kind), any::<bool>(), near_boundary(kind), size).prop_map(move |(eng, dec, (o, r), b)| {
                 // Ok-side allocations stay small: 65536 positions x one block
+                let b_raw = Some(b);
                 let b = if kind.env(o, r) && !bad_size(b) && b > 66 { 64 } else { b };
-                AgreeCase { kind, eng, dec, o, r, b }
+                AgreeCase { kind, eng, dec, o, r, b, b_raw }
             })
         })
         .boxed()
@@ -357,6 +361,13 @@ fn check_agreement(c: &AgreeCase, st: &mut Stats) -> CheckResult {
         if let Some(res) = no_panic(|| validate(c.kind, c.eng, layer, o, r, b)).map_err(|p| format!("validate {p}"))? {
             judge(&format!("{} {layer:?}::validate({o}, {r}, {b})", c.kind.name()), &res, &truth)?;
             ensure!(res.is_ok() == (sup && !bad_size(b)), "validate({o},{r},{b}) is {res:?} but supports is {sup}");
+        }
+        // validate allocates nothing: supported counts with ANY even non-zero size are valid
+        if let Some(bv) = c.b_raw.filter(|&bv| bv != b) {
+            if let Some(res) = no_panic(|| validate(c.kind, c.eng, layer, o, r, bv)).map_err(|p| format!("validate({o}, {r}, {bv}) {p}"))? {
+                judge(&format!("{} {layer:?}::validate({o}, {r}, {bv})", c.kind.name()), &res, &truth_config(c.kind, o, r, bv))?;
+                ensure!(res.is_ok() == (sup && !bad_size(bv)), "validate({o},{r},{bv}) is {res:?} but supports is {sup}");
+            }
         }
     }
     // construction
